@@ -4,7 +4,9 @@ import PyatvModel.C15.Model
 Line protocol (stateless):
   `crash <target> <old> <new> <op> <op> ...`
      old = `~` (no file) | hex | `-` (empty file);  new = hex | `-`
-     op  = o:<p> | w:<p>:<hex> | f:<p> | s:<p> | c:<p> | r:<p>:<q> | u:<p>
+  `crashx <target> <old> <new> <init> <op> ...`  the same from a directory that also holds
+     other files: init = `-` | <p>:<hex>,<p>:<hex>,…  (leftovers of an earlier crashed save)
+     op  = o:<p> | k:<p> (open without truncation, offset 0) | w:<p>:<hex> | f:<p> | s:<p> | c:<p> | r:<p>:<q> | u:<p>
            (open-truncate, write, flush, fsync, close, rename, unlink; paths are tokens
             without `:` or blanks)
   → `<safe> <final> <g0/g1/.../gn>`   safe = 1|0 (`safeSaveB`), final = target content after
@@ -20,6 +22,7 @@ def optHex : Option Bytes → String
 def parseOp (w : String) : Option Op :=
   match w.splitOn ":" with
   | ["o", p] => some (.openTrunc p)
+  | ["k", p] => some (.openKeep p)
   | ["w", p, h] => (ofHex? h).map (.write p)
   | ["f", p] => some (.flush p)
   | ["s", p] => some (.fsync p)
@@ -28,19 +31,29 @@ def parseOp (w : String) : Option Op :=
   | ["u", p] => some (.unlink p)
   | _ => none
 
+def parseInit (w : String) : Option (List (Path × Bytes)) :=
+  if w == "-" then some [] else
+  (w.splitOn ",").mapM fun e =>
+    match e.splitOn ":" with
+    | [p, h] => (ofHex? h).map fun b => (p, b)
+    | _ => none
+
+def crashLine (t old new init : String) (ops : List String) : String :=
+  let old? : Option (Option Bytes) := if old == "~" then some none else (ofHex? old).map some
+  match old?, ofHex? new, parseInit init, ops.mapM parseOp with
+  | some old, some new, some extras, some tr =>
+    let fs0 := initFSx t old extras
+    let safe := if safeSaveB fs0 new tr t then "1" else "0"
+    let final := match views (run fs0 tr) t with
+      | v :: _ => optHex v
+      | [] => "?"
+    s!"{safe} {final} {String.intercalate "/" ((crashGroups fs0 tr t).map fun g => String.intercalate "," (g.map optHex))}"
+  | _, _, _, _ => "bad-op"
+
 def handle (_ : Unit) (ws : List String) : Unit × String :=
   match ws with
-  | "crash" :: t :: old :: new :: ops =>
-    let old? : Option (Option Bytes) := if old == "~" then some none else (ofHex? old).map some
-    match old?, ofHex? new, ops.mapM parseOp with
-    | some old, some new, some tr =>
-      let fs0 := initFS t old
-      let safe := if safeSaveB fs0 new tr t then "1" else "0"
-      let final := match views (run fs0 tr) t with
-        | v :: _ => optHex v
-        | [] => "?"
-      ((), s!"{safe} {final} {String.intercalate "/" ((crashGroups fs0 tr t).map fun g => String.intercalate "," (g.map optHex))}")
-    | _, _, _ => ((), "bad-op")
+  | "crash" :: t :: old :: new :: ops => ((), crashLine t old new "-" ops)
+  | "crashx" :: t :: old :: new :: init :: ops => ((), crashLine t old new init ops)
   | _ => ((), "bad-op")
 
 end PyatvModel.C15
